@@ -433,6 +433,9 @@ def r10(ctx, R="C13-R10"):
     ctx.floor(R, 7)
 
 
+T_ = "turmoil_net::kernel::socket::Tcb::"
+
+
 def r9(ctx):
     R = "C13-R9"
     ctx.rule(R, "(a) a dropped listener sweeps only its own half-open children: the sweep in tcp::on_close compares the child's port *and* "
@@ -472,6 +475,19 @@ def r9(ctx):
             at = Slicer(ctx.w).atoms(he, he.term(sbb)["d"])
             if "field:turmoil_net::kernel::socket::Socket::fd_closed" in at and any(x in he.reachable(e[1]) for e in te for x in ab):
                 ok = True
+        # ... and only *new* data does: a retransmission of bytes the socket already holds (its ACK was lost or is late) is re-ACKed like
+        # on any other socket - the reset decision compares the segment's sequence number with rcv_nxt
+        okn = False
+        for x in ab:
+            at = set()
+            for sbb in control_switches(he, x):
+                at |= Slicer(ctx.w, control=True).atoms(he, he.term(sbb)["d"])
+            if "field:turmoil_net::kernel::socket::Socket::fd_closed" in at and "field:turmoil_net::kernel::packet::TcpSegment::seq" in at and "field:" + T_ + "rcv_nxt" in at:
+                okn = True
+        if ok:
+            ctx.inst(R, "handle_established:orphan-resets-only-on-new-data", okn, he.span, "a retransmission to an orphaned socket is not answered with a reset" if okn else
+                     "the reset for data arriving at an orphaned socket does not look at the sequence number: a retransmission of bytes the socket already holds (the reader read "
+                     "everything and dropped its stream, its ACK was lost or late) is answered with a RST - the writer gets ConnectionReset instead of EOF")
         ctx.inst(R, "handle_established:orphan-takes-no-new-data", ok, he.span, "new data for an orphaned socket resets the connection" if ok else
                  "handle_established never looks at Socket::fd_closed: an orphaned socket keeps buffering the peer's data until its window closes, and if the peer is "
                  "orphaned too (connect + drop against accept + write + drop) both ends wait forever - FIN_WAIT2 / LAST_ACK entries that keep their ports bound")
